@@ -27,8 +27,10 @@ ASSUMPTIONS = [
   "characters for channel 1 directly after words of another channel without a channel-1 control pair, DER, FON, text mode, "
   "background attributes, CR outside roll-up",
   "the last caption is compared up to the frame in which the last word takes effect; what the document does afterwards is free",
-  "when a stream fails, the comparison is repeated under descriptions of known deviation classes only to NAME the failure "
-  "(key); a failing stream never passes because of them",
+  "when a stream fails, the comparison is repeated under descriptions of deviation classes (rtc/c08.py HYPOTHESES) only to NAME "
+  "the failure (key); a failing stream never passes because of them",
+  "PACs for rows 5-11 in roll-up mode are decoded like any other PAC (15-row decoder of CEA-608); the option of 47 CFR 15.119 for "
+  "decoders without rows 5-11 (ignore such a PAC) is not accepted because the reader implements rows 5-11 in the other styles",
 ]
 FUNCTIONS = ["ttconv.scc.reader:to_model", "ttconv.scc.line:SccLine.from_str", "ttconv.scc.line:SccLine.process",
              "ttconv.scc.context:SccContext.process_control_code", "ttconv.scc.context:SccContext.process_preamble_address_code",
